@@ -152,6 +152,75 @@ pub fn h_stop(run: &Run, out: &mut Vec<Violation>) {
     }
 }
 
+/// "The container in which the report was made returns at once: nothing further inside it is
+/// examined." The reporter of a Break-answered event located at P is the entity at P, except for
+/// a field-level `try_from` failure (a `Foreign` right after the `TryFrom` call), which the
+/// enclosing struct reports at the field's key: there the reporter is the struct, parent(P).
+/// After the chain of hand-overs that follows the Break, whatever container resumes (because a
+/// hand-over was answered Continue) must be an enclosing one: no later event may be located at
+/// or beneath the reporter. Only meaningful without duplicate keys.
+pub fn h_stop_inside(run: &Run, out: &mut Vec<Violation>) {
+    if let Outcome::Panic(_) = run.outcome {
+        return;
+    }
+    let ev = &run.events;
+    for i in 0..ev.len() {
+        if ev[i].brk() != Some(true) {
+            continue;
+        }
+        // a report made inside a user callback (missing_field_error / deny_unknown_fields /
+        // validate function building its error through E::error, as the book documents): the
+        // callback is where the report was made, and it returns at once by construction; the
+        // derive then consults the answer to its own hand-over
+        if matches!(&ev[i], Event::Report { .. })
+            && i > 0
+            && matches!(&ev[i - 1], Event::Call { stage: Stage::Missing | Stage::Unknown | Stage::Validate, .. })
+        {
+            continue;
+        }
+        let p = ev[i].loc().unwrap().clone();
+        let field_level = matches!(&ev[i], Event::Foreign { .. })
+            && i > 0
+            && matches!(&ev[i - 1], Event::Call { stage: Stage::TryFrom, .. });
+        let reporter: Path = if field_level && !p.is_empty() { p[..p.len() - 1].to_vec() } else { p.clone() };
+        // skip the hand-over chain
+        let mut cur = ev[i].result().unwrap();
+        let mut j = i + 1;
+        while j < ev.len() {
+            match &ev[j] {
+                Event::Merge { other, result, .. } if *other == cur => {
+                    cur = *result;
+                    j += 1;
+                }
+                Event::Dropped { .. } | Event::DroppedUser { .. } => j += 1,
+                _ => break,
+            }
+        }
+        for e in &ev[j..] {
+            let loc = match e {
+                Event::Visit { path, .. } => Some(path),
+                Event::Call { loc, .. } => loc.as_ref(),
+                Event::Report { loc, .. } | Event::Foreign { loc, .. } | Event::Merge { loc, .. } => Some(loc),
+                _ => None,
+            };
+            if let Some(l) = loc {
+                if is_prefix(&reporter, l) {
+                    out.push(v(
+                        "H-stop",
+                        format!(
+                            "the container at {} was answered Break (`{}`) yet work inside it went on later: `{}`",
+                            path_str(&reporter),
+                            ev[i].render(),
+                            e.render()
+                        ),
+                    ));
+                    return;
+                }
+            }
+        }
+    }
+}
+
 /// index of the event that consumed decision number k (0-based)
 pub fn decision_index(events: &[Event], k: usize) -> Option<usize> {
     let mut n = 0;
